@@ -537,6 +537,51 @@ impl Space for Independence {
     }
 }
 
+/// The header a GnuHashTable exposes (`.hdr`) carries the on-disk words, whatever their values.
+struct HashHeaders;
+const HH_SHIFTS: [u32; 16] = [0, 1, 5, 6, 26, 31, 32, 33, 40, 63, 64, 255, 256, 0x8000_0000, 0xffff_ffe0, u32::MAX];
+impl Space for HashHeaders {
+    fn name(&self) -> String {
+        "GnuHashTable::new(..).hdr on reference-built .gnu.hash sections: shift word in {0,1,5,6,26,31,32,33,40,63,64,255,256,2^31,2^32-32,2^32-1} x symoffset {1,3} x nbucket {1,3} x bloom words {1,2} x 4 encodings: the four exposed header fields equal the four on-disk words".into()
+    }
+    fn size(&self) -> u64 {
+        16 * 2 * 2 * 2 * 4
+    }
+    fn describe(&self, idx: u64) -> Value {
+        let d = unmix(idx, &[16, 2, 2, 2, 4]);
+        json!({"shift_word": HH_SHIFTS[d[0] as usize], "symoffset": 1 + 2 * d[1], "nbucket": 1 + 2 * d[2], "bloom_words": d[3] + 1, "encoding": ENCS[d[4] as usize].name()})
+    }
+    fn run(&self, idx: u64, out: &mut Outcome) {
+        let d = unmix(idx, &[16, 2, 2, 2, 4]);
+        let enc = ENCS[d[4] as usize];
+        let shift = HH_SHIFTS[d[0] as usize];
+        let so = [1usize, 3][d[1] as usize];
+        let nb = [1usize, 3][d[2] as usize];
+        let bl = d[3] as usize + 1;
+        let mut unhashed: Vec<Vec<u8>> = vec![vec![]];
+        for k in 1..so {
+            unhashed.push(format!("u{k}").into_bytes());
+        }
+        let hashed: Vec<Vec<u8>> = vec![b"memset".to_vec(), b"ab".to_vec(), b"bA".to_vec()];
+        let mut g = refmodel::hashes::build_gnu(enc, &unhashed, &hashed, nb, bl, 5);
+        put(&mut g.section, 12, 4, enc.order, shift as u64);
+        let e = if enc.order == Order::Lsb { AnyEndian::Little } else { AnyEndian::Big };
+        let c = if enc.class == refmodel::layout::Class::C32 { elf::file::Class::ELF32 } else { elf::file::Class::ELF64 };
+        out.transitions += 1;
+        match subject(|| elf::hash::GnuHashTable::new(e, c, &g.section).ok().map(|t| (t.hdr.nbucket, t.hdr.table_start_idx, t.hdr.nbloom, t.hdr.nshift))) {
+            Err(m) => out.violate(format!("panic:GnuHashTable::new in {}", panic_site(&m)), m),
+            Ok(None) => out.count("table_rejected"),
+            Ok(Some(got)) => {
+                let want = (nb as u32, so as u32, bl as u32, shift);
+                if got != want {
+                    out.violate("field:GnuHashTable.hdr", format!("{}: on-disk header words (nbucket, symoffset, nbloom, nshift) = {:?}, the table exposes {:?}", enc.name(), want, got));
+                }
+                out.nontrivial(idx ^ 0x6e75);
+            }
+        }
+    }
+}
+
 pub fn build(tier: Tier) -> CheckDef {
     let tiny = crate::skeleton::tiny_skeletons();
     let ind: Vec<crate::skeleton::Skeleton> = if tier == Tier::Quick { vec![tiny[4].clone(), tiny[3].clone()] } else { tiny.into_iter().step_by(2).collect() };
@@ -554,6 +599,7 @@ pub fn build(tier: Tier) -> CheckDef {
             Box::new(super::c09::Sequences { depth: 3 }),
             // note headers: sizes and padding of consecutive records through ElfBytes
             Box::new(super::c14::ThroughFile),
+            Box::new(HashHeaders),
         ],
         abort_is_violation: false,
         hang_is_violation: false,
